@@ -97,24 +97,25 @@ Definition link (c : @abf_cfg R) (s : @abf_state R) (p : @abf_in R * @abf_out R)
   (forall k, (k < c_nd c)%nat ->
      vget Rops (s_eng s) k = if cvapply c k then vget Rops (i_e (fst p)) k + vget Rops (o_f (snd p)) k
                              else vget Rops (i_e (fst p)) k) /\
-  (forall k, (k < c_nd c)%nat -> vget Rops (s_fabf s) k = vget Rops (o_fabf (snd p)) k) /\
+  (forall k, (k < c_nd c)%nat -> vget Rops (s_fprev s) k = vget Rops (o_fapp (snd p)) k) /\
   (forall k, (k < c_nd c)%nat -> bget (c_subtract c) k = true -> vget Rops (s_fold s) k = vget Rops (o_f (snd p)) k) /\
   (forall k, (k < c_nd c)%nat -> vget Rops (s_fj s) k = vget Rops (i_j (fst p)) k) /\
   (* a variable to which no bias applies a force: the ABF force is 0, and so is colvar::f unless hideJacobian *)
   (forall k, (k < c_nd c)%nat -> cvapply c k = false ->
-     vget Rops (o_fabf (snd p)) k = 0 /\ (c_hidej c = false -> vget Rops (o_f (snd p)) k = 0)).
+     vget Rops (o_fapp (snd p)) k = 0 /\ (c_hidej c = false -> vget Rops (o_f (snd p)) k = 0)).
 
 Lemma link_step c s i : link c (fst (abf_step Rops c s i)) (i, snd (abf_step Rops c s i)).
 Proof.
-  unfold abf_step, link. cbn [fst snd s_started s_fbin s_eng s_fabf s_fold s_fj o_f o_fabf].
+  unfold abf_step, link. cbn [fst snd s_started s_fbin s_eng s_fprev s_fold s_fj o_f o_fapp].
   split; [reflexivity|]. split; [reflexivity|]. split; [|split; [|split; [|split]]].
   - intros k Hk. unfold st_eng. rewrite vget_vbuild by exact Hk. destruct (cvapply c k); reflexivity.
   - intros k Hk. reflexivity.
   - intros k Hk Hs. unfold st_fold. rewrite vget_vbuild by exact Hk. rewrite Hs. reflexivity.
   - intros k Hk. unfold st_fj. rewrite vget_vbuild by exact Hk. reflexivity.
   - intros k Hk Hcv. unfold cvapply in Hcv. apply orb_false_iff in Hcv. destruct Hcv as [Ha Ho].
-    assert (Hf : vget Rops (st_fabf Rops c s i) k = 0).
-    { unfold st_fabf. rewrite Ha. cbn [andb]. apply vget_vzero. }
+    assert (Hf : vget Rops (st_fapp Rops c s i) k = 0).
+    { unfold st_fapp. rewrite vget_vbuild by exact Hk. unfold st_fabf. rewrite Ha. cbn [andb].
+      rewrite vget_vzero. cbn [nmul Rops]. lra. }
     split; [exact Hf|]. intros Hh. unfold st_f. rewrite vget_vbuild by exact Hk.
     rewrite Hh, Hf. unfold oeff. rewrite Ho. cbn [nadd n0 Rops]. lra.
 Qed.
@@ -133,7 +134,7 @@ Lemma sysf_lag c s i p k :
   link c s p -> (k < c_nd c)%nat ->
   vget Rops (st_sysf Rops c s i) k = vget Rops (sample_force Rops c p) k.
 Proof.
-  intros Hjok Hsame Hupd Hrel (Hst & Hfb & Heng & Hfabf & Hfold & Hfj & Hnoapp) Hk.
+  intros Hjok Hsame Hupd Hrel (Hst & Hfb & Heng & Hfapp & Hfold & Hfj & Hnoapp) Hk.
   unfold st_sysf. rewrite vget_vbuild by exact Hk.
   unfold st_ft. rewrite Hsame. rewrite vget_vbuild by exact Hk.
   unfold st_ft0. rewrite vget_vbuild by exact Hk.
@@ -143,14 +144,14 @@ Proof.
   destruct (cvapply c k) eqn:Hcv.
   - destruct (bget (c_subtract c) k) eqn:Hs; destruct (c_hidej c) eqn:Hh;
       cbn [andb orb negb nsub nadd n0 Rops];
-      try rewrite (Hfold k Hk Hs); try rewrite (Hfabf k Hk); lra.
+      try rewrite (Hfold k Hk Hs); try rewrite (Hfapp k Hk); lra.
   - destruct (c_hidej c) eqn:Hh.
     + (* excluded by jac_ok *)
       rewrite (Hjok Hh Hsame k Hk) in Hcv. discriminate Hcv.
     + destruct (Hnoapp k Hk Hcv) as [Hf0 Hof]. specialize (Hof eq_refl).
       destruct (bget (c_subtract c) k) eqn:Hs;
         cbn [andb orb negb nsub nadd n0 Rops];
-        try rewrite (Hfold k Hk Hs); try rewrite (Hfabf k Hk); lra.
+        try rewrite (Hfold k Hk Hs); try rewrite (Hfapp k Hk); lra.
 Qed.
 
 Lemma doacc_lag c s i p :
@@ -241,7 +242,7 @@ Proof.
       * rewrite vget_vbuild by exact Hk. cbn [nsub Rops].
         apply andb_true_iff in E. destruct E as [E1 _]. unfold eligible in E1.
         apply andb_true_iff in E1. destruct E1 as [Hupd _].
-        assert (Hsf : vget Rops (st_sysf Rops c s i) k = vget Rops (sample_force Rops c (i, mkOut (st_bin Rops c i) (st_fabf Rops c s i) (st_f Rops c s i) (fst (st_clk s i)) (snd (st_clk s i)) (st_ft Rops c s i))) k).
+        assert (Hsf : vget Rops (st_sysf Rops c s i) k = vget Rops (sample_force Rops c (i, mkOut (st_bin Rops c i) (st_fabf Rops c s i) (st_fapp Rops c s i) (st_f Rops c s i) (fst (st_clk s i)) (snd (st_clk s i)) (st_ft Rops c s i))) k).
         { unfold st_sysf. rewrite vget_vbuild by exact Hk. rewrite Hsame, orb_true_r.
           unfold st_ft. rewrite Hsame. unfold st_ft0. rewrite vget_vbuild by exact Hk.
           rewrite Hupd, Hsame. cbn [orb].
@@ -623,6 +624,19 @@ Proof.
   - intros b' k' Hk'. apply (abf_state_is_sample_sum c (h ++ [i]) b' Hwf Hjok). exact Hk'.
 Qed.
 
+(* the force the bias hands to the variable is that force times the factor of the scaling grid at the
+   current bin (scaledBiasingForce), 1 when the option is off *)
+Theorem applied_force_scaled c s i k :
+  (k < c_nd c)%nat ->
+  vget Rops (o_fapp (snd (abf_step Rops c s i))) k
+  = vget Rops (o_fabf (snd (abf_step Rops c s i))) k * sfac Rops c (bins Rops c (i_x i)).
+Proof.
+  intros Hk. unfold abf_step. cbn [snd o_fapp o_fabf]. unfold st_fapp. rewrite vget_vbuild by exact Hk. reflexivity.
+Qed.
+
+Lemma sfac_unscaled c b : c_scaled c = false -> sfac Rops c b = 1.
+Proof. intros H. unfold sfac. rewrite H. reflexivity. Qed.
+
 (* outside the grid, or with applyBias off, the ABF force is zero *)
 Theorem no_force_outside c s i k :
   c_apply c && index_ok c (bins Rops c (i_x i)) = false ->
@@ -723,7 +737,7 @@ Qed.
 (* ---------------------------------------------------------------- non-vacuity *)
 (* wf_cfg and jac_ok hold for a lagged configuration with hideJacobian and applyBias on *)
 Lemma example_wf_lagged :
-  let c := @mkCfg R 1 [0%R] [1%R] [2%Z] [false] 2 1 true true false [0%R] false false [false] true [false] in
+  let c := @mkCfg R 1 [0%R] [1%R] [2%Z] [false] 2 1 true true false [0%R] false false [false] true [false] true (fun _ => (1/2)%R) in
   let h := [@mkIn R [(1/2)%R] [1%R] [0%R] [3%R] false; @mkIn R [(1/2)%R] [0%R] [0%R] [3%R] false] in
   wf_cfg c /\ jac_ok c /\ c_hidej c = true /\ c_same_step c = false /\ length (ABFModel.trace_of Rops c h) = 2%nat.
 Proof.
